@@ -245,7 +245,9 @@ ZERO = ("0", 0, "n", "", "B")
 SIZES = [ZERO, ("10", 0, "n", "", "B"), ("1", 0, "n", ".5", "GiB"), ("2", 1, "+", "03", "MiB"), ("1", 0, "n", "", "GiB"),
          ("999", 0, "n", "", "KiB"), ("1", 1, "-", "05", "KiB"), ("12", 0, "+", "3", "B"),
          ("100", 0, "n", "", "B"), ("0", 0, "n", ".5", "KiB"), ("00", 0, "n", "", "B"), ("0", 0, "n", "", "KiB"),
-         ("3", 0, "n", "..", "x"), ("7", 1, "n", "", "B"), ("0", 0, "n", ".0", "B")]
+         ("3", 0, "n", "..", "x"), ("7", 1, "n", "", "B"), ("0", 0, "n", ".0", "B"),
+         # qemu switches units at 1000, so 1000..1023 MiB print as 0.977..0.999 GiB: a running-vm size with a leading zero
+         ("0", 0, "n", ".98", "GiB"), ("0", 0, "n", ".977", "GiB"), ("0", 0, "n", ".5", "MiB"), ("0", 1, "+", "00", "B")]
 
 
 def size_str(z):
@@ -738,7 +740,16 @@ def extract_regex(tree, name):
     call = hits[0].value
     if not (isinstance(call, ast.Call) and ast.unparse(call.func) == "re.compile" and len(call.args) == 1
             and isinstance(call.args[0], ast.Constant) and isinstance(call.args[0].value, str)):
-        raise RuntimeError(f"extract: {name} is no longer re.compile(<string literal>, ...)")
+        # the pattern is no longer a literal (e.g. composed from a shared template): take the VALUE of the compiled
+        # regex from the imported module instead, so that the pinned theorems are checked against what the code uses
+        import importlib
+        import re as _re
+        mod = importlib.import_module("avocado_i2n.states.qcow2")
+        rx = getattr(mod, name, None)
+        if not isinstance(rx, _re.Pattern):
+            raise RuntimeError(f"extract: {name} is neither re.compile(<string literal>, ...) nor a compiled pattern")
+        flags = "re.MULTILINE" if (rx.flags & ~_re.UNICODE) == _re.MULTILINE else ("0" if (rx.flags & ~_re.UNICODE) == 0 else str(rx.flags))
+        return rx.pattern, flags
     kws = {k.arg: ast.unparse(k.value) for k in call.keywords}
     if set(kws) - {"flags"}:
         raise RuntimeError(f"extract: unexpected keywords of re.compile for {name}: {sorted(kws)}")
